@@ -1343,7 +1343,10 @@ static void do_op(const struct sim_op *op)
         upipe_get_max_length(ut, &ulen);
         upipe_get_uri(ut, &str);
         upipe_get_option(ut, "x", &str);
-        if (checking() && out != cur_out && out != NULL && cur_out != NULL)
+        /* (not after a set_output that returned an error: commands that end with
+         * the pipe's own check report the check's error although the output was
+         * set - which one is current is then not known to the application) */
+        if (checking() && out != cur_out && out != NULL && cur_out != NULL && !has_no_output)
             sim_violation(V_GETTER, "%s: get_output does not report the output that was set", types[type].name);
         for (int w = 0; w < 3; w++) {
             uint64_t got = 0;
